@@ -74,6 +74,28 @@ def gen_soup(rng):
     return sanitise(toks)
 
 
+def gen_structured(rng):
+    """Clause skeleton in the right order with 0-3 random tokens at each clause's own position, so that every parse_*
+    function sees garbage where it expects its operands."""
+    structural = ["(", ")", "{", "}", ",", "'", "and", "or", "not", "desc", "asc", "by", "=", "-", "*", "+", "/", "between", "1", "0"]
+
+    def junk(lo=0, hi=3):
+        return [rng.choice(structural) if rng.random() < 0.45 else rng.choice(ALL) for _ in range(rng.randint(lo, hi))]
+    toks = [rng.choice(COLS + FUNCS)] + junk(0, 2)
+    toks += ["from", rng.choice(PATHS)] + junk(0, 1)
+    if rng.random() < 0.4:
+        toks += ["where"] + (junk(0, 4) if rng.random() < 0.5 else ["size", ">", "1"] + junk(0, 2))
+    if rng.random() < 0.5:
+        toks += ["group", "by"] + junk(0, 3)
+    if rng.random() < 0.5:
+        toks += ["order", "by"] + junk(0, 3)
+    if rng.random() < 0.4:
+        toks += ["limit"] + junk(0, 2)
+    if rng.random() < 0.4:
+        toks += ["into"] + junk(0, 2)
+    return sanitise(toks)
+
+
 def sanitise(toks):
     """Keeps the search inside the scratch tree: no absolute / parent / home paths may follow `from` or a comma."""
     out = []
@@ -184,9 +206,12 @@ def run_job(job):
         else:
             for i in range(job["n"]):
                 c = rng.random()
-                if c < 0.5:
+                if c < 0.3:
                     toks = gen_soup(rng)
                     cls = "soup"
+                elif c < 0.5:
+                    toks = gen_structured(rng)
+                    cls = "structured-soup"
                 elif c < 0.9:
                     toks_, _simple = c11.gen_query(rng)
                     toks = c11.render(toks_)
@@ -214,7 +239,7 @@ def main(chk):
     jobs = []
     for lo in range(0, len(DIRECTED), 8):
         jobs.append({"id": "dir%d" % lo, "kind": "directed", "seed": 0, "lo": lo, "hi": lo + 8})
-    n = 96 if quick else 1500
+    n = 320 if quick else 3000
     for i in range(n):
         jobs.append({"id": "s%d" % i, "kind": "soup", "seed": job_seed(chk.seed, "C10", i), "n": 60 if quick else 100})
     chk.run_jobs(jobs, budget_s=420 if quick else 3000)
